@@ -151,8 +151,10 @@ def check_complete(F, bodies, V3):
                     n += 1
                     V3.sites += 1
                     V3.fn(b.path)
-                    if not b.path.endswith('FileTransfer::check_finished'):
-                        V3.violation(('complete-stored-elsewhere', b.closure_of or b.path), 'FileTransferState::Complete is stored in %s; only check_finished (after its counter/size comparisons) may do that' % b.path, where=b.loc(s.sp))
+                    callers = set(x.path for x in F.order for cb in x.calls() if cb.term.callee.path == b.path)
+                    helper_of_cf = bool(callers) and all(c.endswith('FileTransfer::check_finished') for c in callers)
+                    if not b.path.endswith('FileTransfer::check_finished') and not helper_of_cf:
+                        V3.violation(('complete-stored-elsewhere', b.closure_of or b.path), 'FileTransferState::Complete is stored in %s; only check_finished (after its counter/size comparisons), or a helper called from nowhere else, may do that' % b.path, where=b.loc(s.sp))
                         continue
                     cfg = cfg or CFG(b)
                     E = ExprBuilder(cfg)
